@@ -560,6 +560,34 @@ func runRedef(c *Ctx) {
 							if fr, ok := core.AsFieldLoad(cl.Common().Args[0]); ok && fr.Owner == "Func" && fr.Field == "output" {
 								overOutputs = true
 							}
+							// the set is handed in by the caller: at every call site it is the function's own output set
+							if prm, ok := core.Strip(cl.Common().Args[0]).(*ssa.Parameter); ok && prm.Parent() == validator {
+								idx := paramIndex(prm)
+								sites := p.Callers(validator)
+								all := idx >= 0 && len(sites) > 0
+								for _, site := range sites {
+									if idx >= len(site.Common().Args) {
+										all = false
+										continue
+									}
+									a := core.Strip(site.Common().Args[idx])
+									isOut := false
+									if oc, ok := a.(*ssa.Call); ok && oc.Common().StaticCallee() != nil && oc.Common().StaticCallee().Name() == "Output" && len(oc.Common().Args) == 1 {
+										if rp, ok := core.Strip(oc.Common().Args[0]).(*ssa.Parameter); ok && rp.Parent() == site.Parent() && paramIndex(rp) == 0 {
+											isOut = true
+										}
+									}
+									if fr, ok := core.AsFieldLoad(a); ok && fr.Owner == "Func" && fr.Field == "output" {
+										isOut = true
+									}
+									if !isOut {
+										all = false
+									}
+								}
+								if all {
+									overOutputs = true
+								}
+							}
 						}
 					}
 				}
